@@ -13,6 +13,7 @@ SimLock is the cooperative lock seam: code under test that blocks on a lock held
 thread yields to the scheduler instead of hanging the OS thread.
 """
 import sys, os, dis, time, threading, _thread
+import queue as _queue_mod
 
 _alloc = _thread.allocate_lock          # captured before any patching
 _real_Lock = threading.Lock
@@ -222,6 +223,77 @@ class SimSemaphore(object):
         self.release()
 
 
+class SimQueue(object):
+    """Cooperative queue.Queue / SimpleQueue (FIFO only): blocking put/get yield to the scheduler."""
+    def __init__(self, maxsize=0):
+        import collections
+        self.maxsize = maxsize
+        self.queue = collections.deque()
+        self._cv = SimCondition(SimLock(False))
+        self._unfinished = 0
+
+    def qsize(self):
+        return len(self.queue)
+
+    def empty(self):
+        return not self.queue
+
+    def full(self):
+        return 0 < self.maxsize <= len(self.queue)
+
+    def put(self, item, block=True, timeout=None):
+        import queue as _q
+        with self._cv:
+            while self.full():
+                if not block:
+                    raise _q.Full
+                got = self._cv.wait(timeout)
+                if timeout is not None and not got and self.full():
+                    raise _q.Full
+            self.queue.append(item)
+            self._unfinished += 1
+            self._cv.notify_all()
+
+    def get(self, block=True, timeout=None):
+        import queue as _q
+        with self._cv:
+            while not self.queue:
+                if not block:
+                    raise _q.Empty
+                got = self._cv.wait(timeout)
+                if timeout is not None and not got and not self.queue:
+                    raise _q.Empty
+            item = self.queue.popleft()
+            self._cv.notify_all()
+            return item
+
+    def put_nowait(self, item):
+        return self.put(item, block=False)
+
+    def get_nowait(self):
+        return self.get(block=False)
+
+    def task_done(self):
+        with self._cv:
+            self._unfinished -= 1
+            self._cv.notify_all()
+
+    def join(self):
+        with self._cv:
+            while self._unfinished > 0:
+                self._cv.wait()
+
+
+class _QueueProxy(object):
+    """Stands in for the `queue` module inside athlib namespaces."""
+    def __init__(self, real):
+        self.__dict__['_real'] = real
+    def __getattr__(self, name):
+        if name in ('Queue', 'SimpleQueue'):
+            return SimQueue
+        return getattr(self._real, name)
+
+
 _FACTORIES = {'Lock': sim_lock_factory, 'RLock': sim_rlock_factory, 'Condition': SimCondition, 'Event': SimEvent,
               'Semaphore': SimSemaphore, 'BoundedSemaphore': SimSemaphore}
 
@@ -266,6 +338,17 @@ def install_lock_seam(modules):
             r = SimSemaphore(v._value)
         elif v is threading:
             r = _ThreadingProxy(threading)
+        elif v is _queue_mod:
+            r = _QueueProxy(_queue_mod)
+        elif v is _queue_mod.Queue or v is _queue_mod.SimpleQueue:
+            r = SimQueue
+        elif isinstance(v, (_queue_mod.Queue, _queue_mod.SimpleQueue)) and type(v) in (_queue_mod.Queue, _queue_mod.SimpleQueue):
+            r = SimQueue(getattr(v, 'maxsize', 0))
+            try:
+                while True:
+                    r.queue.append(v.get_nowait())
+            except Exception:
+                pass
         elif id(v) in real_factories and callable(v):
             r = real_factories[id(v)]
         if r is not None:
